@@ -97,6 +97,7 @@ impl Sched {
 
 impl Write for SharedSink {
     fn write(&mut self, buf: &[u8]) -> io::Result<usize> {
+        crate::alloc::tick();
         let mut s = self.0.borrow_mut();
         s.calls += 1;
         let n = s.sched.take(s.calls, buf.len())?;
@@ -131,12 +132,17 @@ impl<'a> ThrottledSrc<'a> {
 
 impl Read for ThrottledSrc<'_> {
     fn read(&mut self, buf: &mut [u8]) -> io::Result<usize> {
+        crate::alloc::tick();
         self.calls += 1;
         if self.calls > self.max_calls {
             return Err(io::Error::new(io::ErrorKind::Other, "harness step bound exceeded"));
         }
         if self.eof_seen {
             self.reads_after_eof += 1;
+            if self.reads_after_eof > 2_000_000 {
+                // logical-step bound: the caller keeps asking a source that has ended
+                panic!("HARNESS-STEP-BOUND: source read {} times after its end", self.reads_after_eof);
+            }
         }
         let avail = self.data.len().saturating_sub(self.pos as usize);
         if avail == 0 {
@@ -159,6 +165,7 @@ impl Read for ThrottledSrc<'_> {
 
 impl Seek for ThrottledSrc<'_> {
     fn seek(&mut self, pos: SeekFrom) -> io::Result<u64> {
+        crate::alloc::tick();
         self.seeks += 1;
         let new = match pos {
             SeekFrom::Start(p) => p as i128,
@@ -206,6 +213,12 @@ pub fn recipient_keys(p: &Program) -> (Vec<[u8; 32]>, Vec<PublicKey>) {
 
 /// Run a (valid) program through the real writer. Every call must succeed.
 pub fn build(p: &Program, k: &K, sched: Sched) -> Result<Built, String> {
+    build_with_sources(p, k, sched, Sched::All)
+}
+
+/// Same, the data of every piece being handed over by a source following `src_sched`
+/// (a `Read` may return fewer bytes than asked)
+pub fn build_with_sources(p: &Program, k: &K, sched: Sched, src_sched: Sched) -> Result<Built, String> {
     let (sks, pks) = recipient_keys(p);
     let cfg = writer_config(p, &pks);
     let key = if p.layers & 1 != 0 { Some(*cfg.encryption_key()) } else { None };
@@ -228,7 +241,7 @@ pub fn build(p: &Program, k: &K, sched: Sched) -> Result<Built, String> {
             Op::Append(f, s) => {
                 let n = s.eval(k) as usize;
                 let id = ids[*f].ok_or_else(|| format!("op {i}: append before start"))?;
-                w.append_file_content(id, n as u64, &data[*f][off[*f]..off[*f] + n])
+                w.append_file_content(id, n as u64, ThrottledSrc::new(&data[*f][off[*f]..off[*f] + n], src_sched.clone()))
                     .map_err(|e| format!("op {i} append_file_content: {e}"))?;
                 off[*f] += n;
             }
@@ -238,7 +251,7 @@ pub fn build(p: &Program, k: &K, sched: Sched) -> Result<Built, String> {
             }
             Op::Add(f, s) => {
                 let n = s.eval(k) as usize;
-                w.add_file(&p.files[*f].name.render(), n as u64, &data[*f][off[*f]..off[*f] + n])
+                w.add_file(&p.files[*f].name.render(), n as u64, ThrottledSrc::new(&data[*f][off[*f]..off[*f] + n], src_sched.clone()))
                     .map_err(|e| format!("op {i} add_file: {e}"))?;
                 off[*f] += n;
                 ids[*f] = Some(u64::MAX);
@@ -406,8 +419,33 @@ pub struct Repaired {
     pub out_raw: Vec<u8>,
 }
 
+/// destination of a repair: what is written is bounded by a function of the input size
+pub struct CapVec {
+    pub buf: Vec<u8>,
+    pub cap: usize,
+}
+impl Write for CapVec {
+    fn write(&mut self, b: &[u8]) -> io::Result<usize> {
+        crate::alloc::tick();
+        if self.buf.len() + b.len() > self.cap {
+            return Err(io::Error::new(io::ErrorKind::Other, "HARNESS-OUTPUT-CAP: repair writes far more than it was given"));
+        }
+        self.buf.extend_from_slice(b);
+        Ok(b.len())
+    }
+    fn flush(&mut self) -> io::Result<()> {
+        Ok(())
+    }
+}
+
 /// Repair `src` into a fresh archive without layers. Err = repair refused to start or failed.
 pub fn repair<R: Read>(src: R, sks: &[[u8; 32]], mode: Mode) -> Result<Repaired, String> {
+    repair_capped(src, sks, mode, usize::MAX / 2)
+}
+
+/// `cap`: upper bound on the size of the repaired archive (a repair that appends for ever is
+/// turned into an error mentioning HARNESS-OUTPUT-CAP instead of exhausting memory)
+pub fn repair_capped<R: Read>(src: R, sks: &[[u8; 32]], mode: Mode, cap: usize) -> Result<Repaired, String> {
     let mut cfg = reader_config(sks);
     match mode {
         Mode::Auth => cfg.failsafe_return_only_authenticated_data(),
@@ -416,7 +454,7 @@ pub fn repair<R: Read>(src: R, sks: &[[u8; 32]], mode: Mode) -> Result<Repaired,
     let mut fs = ArchiveFailSafeReader::from_config(src, cfg).map_err(|e| format!("failsafe open: {e}"))?;
     let mut wc = ArchiveWriterConfig::new();
     wc.set_layers(Layers::EMPTY);
-    let mut out = ArchiveWriter::from_config(Vec::new(), wc).map_err(|e| format!("out writer: {e}"))?;
+    let mut out = ArchiveWriter::from_config(CapVec { buf: Vec::new(), cap }, wc).map_err(|e| format!("out writer: {e}"))?;
     let st = fs.convert_to_archive(&mut out).map_err(|e| format!("convert: {e}"))?;
     let status = match &st {
         FailSafeReadError::EndOfOriginalArchiveData => Status::EndOfData,
@@ -427,12 +465,16 @@ pub fn repair<R: Read>(src: R, sks: &[[u8; 32]], mode: Mode) -> Result<Repaired,
         }
         other => Status::Other(status_name(other)),
     };
-    Ok(Repaired { status, out_raw: out.into_raw() })
+    Ok(Repaired { status, out_raw: out.into_raw().buf })
 }
 
 /// Repair then read the produced archive back with the normal reader
 pub fn repair_and_read<R: Read>(src: R, sks: &[[u8; 32]], mode: Mode, rng: &mut Rng) -> Result<(Status, BTreeMap<String, FileRead>), String> {
-    let r = repair(src, sks, mode)?;
+    repair_and_read_capped(src, sks, mode, rng, usize::MAX / 2)
+}
+
+pub fn repair_and_read_capped<R: Read>(src: R, sks: &[[u8; 32]], mode: Mode, rng: &mut Rng, cap: usize) -> Result<(Status, BTreeMap<String, FileRead>), String> {
+    let r = repair_capped(src, sks, mode, cap)?;
     let files = read_all(&r.out_raw, &[], rng).map_err(|e| format!("UNREADABLE-OUTPUT: {e}"))?;
     Ok((r.status, files))
 }
